@@ -20,7 +20,7 @@ def T(*names):
 
 PROPS = {
  'C12': dict(
-    tasks=T('verus:fp', 'kani:arkff', 'mirvc:specs_tower', 'search:specs_tower', 'mirvc:specs_lib', 'lsearch:all', 'ground:all'),
+    tasks=T('verus:divrem', 'kani:arkff', 'mirvc:specs_tower', 'search:specs_tower', 'mirvc:specs_lib', 'lsearch:all', 'ground:all'),
     trusted_base=[A['A2'], A['A7'], A['A9'], A['L2']],
     assumptions=[A['A2'], A['A6'], A['A7'], A['A9']],
     explanation='every function of fields/fq2.rs verified against Fq[u]/(u^2+2) from its rustc MIR with callees replaced by contracts'),
@@ -50,12 +50,12 @@ PROPS = {
     assumptions=[A['A3'], A['A4'], A['A7']],
     explanation='AffineG::new: Ok iff y^2 = x^3 + b and (check_order => [r-1]P + P = O), for both values of check_order'),
  'C06': dict(
-    tasks=(lambda tier: ['verus:fp', 'verus:fpr', 'kani:arkff', 'kani:limbs_linear', 'mirvc:specs_lib', 'mirvc:specs_loops', 'lsearch:all', 'ground:all'] if tier == 'quick' else ['verus:fp', 'verus:fpr', 'kani:arkff', 'kani:limbs_linear', 'mirvc:specs_lib', 'mirvc:specs_loops', 'lsearch:all', 'kani:canon', 'ground:all']),
+    tasks=(lambda tier: ['verus:divrem', 'verus:invr', 'kani:arkff', 'kani:limbs_linear', 'mirvc:specs_lib', 'mirvc:specs_loops', 'lsearch:all', 'ground:all'] if tier == 'quick' else ['verus:divrem', 'verus:invr', 'kani:arkff', 'kani:limbs_linear', 'mirvc:specs_lib', 'mirvc:specs_loops', 'lsearch:all', 'kani:canon', 'ground:all']),
     trusted_base=[A['A1'], A['A6'], A['A7']],
     assumptions=[A['A1'], A['A6'], A['A7']],
     explanation='(under construction) limb-level contracts'),
  'C13': dict(
-    tasks=(lambda tier: ['verus:fp', 'verus:fpr', 'kani:arkff', 'kani:dispatch', 'kani:bytes', 'kani:limbs_linear', 'mirvc:specs_lib', 'lsearch:all', 'ground:all'] if tier == 'quick' else ['verus:fp', 'verus:fpr', 'kani:arkff', 'kani:dispatch', 'kani:bytes', 'kani:limbs_linear', 'mirvc:specs_lib', 'lsearch:all', 'ground:all']),
+    tasks=(lambda tier: ['verus:divrem', 'verus:invr', 'kani:arkff', 'kani:dispatch', 'kani:bytes', 'kani:limbs_linear', 'mirvc:specs_lib', 'lsearch:all', 'ground:all'] if tier == 'quick' else ['verus:divrem', 'verus:invr', 'kani:arkff', 'kani:dispatch', 'kani:bytes', 'kani:limbs_linear', 'mirvc:specs_lib', 'lsearch:all', 'ground:all']),
     trusted_base=[A['A6'], A['A7'], A['A9']],
     assumptions=[A['A6'], A['A7'], A['A9']],
     explanation='(under construction) conversion contracts'),
@@ -75,7 +75,7 @@ PROPS = {
     assumptions=[A['A7'], A['A9']],
     explanation='(under construction) encoder contracts'),
  'C07': dict(
-    tasks=(lambda tier: ['verus:fp', 'verus:fpr', 'kani:arkff', 'kani:limbs_linear', 'mirvc:specs_lib', 'lsearch:all', 'ground:all'] if tier == 'quick' else ['verus:fp', 'verus:fpr', 'kani:arkff', 'kani:limbs_linear', 'mirvc:specs_lib', 'lsearch:all', 'kani:canon', 'ground:all']),
+    tasks=(lambda tier: ['verus:divrem', 'verus:invr', 'kani:arkff', 'kani:limbs_linear', 'mirvc:specs_lib', 'lsearch:all', 'ground:all'] if tier == 'quick' else ['verus:divrem', 'verus:invr', 'kani:arkff', 'kani:limbs_linear', 'mirvc:specs_lib', 'lsearch:all', 'kani:canon', 'ground:all']),
     trusted_base=[A['A6'], A['A7']],
     assumptions=[A['A6'], A['A7']],
     explanation='(under construction) canonicity'),
